@@ -188,14 +188,27 @@ def body(ctx, conv, shape, variant, kind, part, data_first=False, via=None):
                   'the deprecated alias unravel_index(n, grid_kind) is wind_index(n, grid_kind)')
         return
 
+    if part == 'helper':
+        # the grid kind's call helper is the documented way to write Arakawa C indexes: kind(j, i) == (kind, j, i).
+        # (components in a bounded range around the grid, so that a helper that coerces them stays explorable)
+        comps = tuple(ctx.int(f'c{d}', -1, eshape[d]) for d in range(len(eshape)))
+        helped = kind_obj(*comps)
+        ok = isinstance(helped, tuple) and len(helped) == 3 and helped[0] == kind_obj
+        ctx.check(ok and And(same(helped[1], comps[0]), same(helped[2], comps[1])), 'kind(j, i) is the native index (kind, j, i)')
+        if ok:
+            try:
+                r = convention.ravel_index(helped)
+            except Exception as e:
+                if type(e).__name__ in ('HarnessError',):
+                    raise
+                ctx.check(Not(in_range(comps, eshape)), f'ravel_index(kind(j, i)) raised {type(e).__name__} only out of range')
+                return
+            ctx.check(And(in_range(comps, eshape), same(r, row_major(comps, eshape))), 'ravel_index(kind(j, i)) is the row-major position of (j, i)')
+        return
+
     if part == 'ravel':
         comps = tuple(ctx.int(f'c{d}') for d in range(len(eshape)))
         idx = native(conv, kind_obj, comps)
-        if conv == 'shoc_standard':
-            # the grid kind's call helper is the documented way to write these indexes: kind(j, i) == (kind, j, i)
-            helped = kind_obj(*comps)
-            ctx.check(isinstance(helped, tuple) and len(helped) == 3 and helped[0] == kind_obj
-                      and And(same(helped[1], comps[0]), same(helped[2], comps[1])), 'kind(j, i) is the native index (kind, j, i)')
         try:
             r = convention.ravel_index(idx)
         except Exception as e:
@@ -241,7 +254,7 @@ def cases(tier):
             configs.append(('ugrid', mesh, 'edgefaceT', ['face', 'node', 'edge']))
     for conv, shp, variant, kinds in configs:
         for kind in kinds:
-            for part in ('meta', 'wind', 'ravel'):
+            for part in ('meta', 'wind', 'ravel') + (('helper',) if conv == 'shoc_standard' and shp[0] != shp[1] else ()):
                 name = f'{conv}:{shp}:{variant}:{kind}:{part}'
                 name = name.replace(' ', '')
                 yield Case(name, body, dict(conv=conv, shape=shp, variant=variant, kind=kind, part=part),
